@@ -31,6 +31,7 @@ NET = 'bitcoinlib_test'
 WTS = ['legacy', 'p2sh-segwit', 'segwit']
 FORMS = ['object', 'dict', 'file', 'raw']
 FEE = 50000
+NPOINTS = 8          # funding outputs of the ceremony address (2 fabricated by the provider + 6 reported)
 # requests of the agreement phase: (cosigner_id or None = the wallet's default, change, number of keys)
 REQUESTS = [(0, 0, 2), (None, 0, 1), (-1, 1, 1)]          # -1: the last cosigner id (n - 1)
 
@@ -109,11 +110,21 @@ def ceremony_job(job):
                           'keys': [[x.public_byte.hex() for x in k.key()] for k in wks]})
         for w in ws:
             w.utxos_update()
+        # further funding of the ceremony address, reported to every cosigner wallet (as a provider would): outputs at
+        # higher indices (1, 2, 255, 256, 65536), several outputs of one funding transaction, different amounts
+        if len(slots) > 1:
+            import hashlib
+            f1, f2 = (hashlib.sha256(b'c10-funding-%d-%d' % (seed, k)).hexdigest() for k in (1, 2))
+            extra = [{'address': slots[1]['addr'], 'script': '', 'confirmations': 10, 'output_n': idx, 'txid': txid, 'value': val}
+                     for txid, idx, val in ((f1, 1, 70000000), (f1, 2, 71000000), (f1, 255, 72000000), (f2, 256, 73000000),
+                                            (f2, 65536, 74000000), (f2, 0, 75000000))]
+            for w in ws:
+                w.utxos_update(utxos=[dict(x) for x in extra], rescan_all=False)
         for s in slots:
-            pts = sorted((u['txid'], u['output_n'], u['value']) for u in ws[0].utxos() if u['address'] == s['addr'])
-            s['points'] = pts
-            if len(pts) < 1:
-                res['setup'] = 'machinery: no fabricated utxo for %s' % s['addr']
+            lists = [sorted((u['txid'], u['output_n'], u['value']) for u in w.utxos() if u['address'] == s['addr']) for w in ws]
+            s['points'] = lists[0]
+            if len(lists[0]) < 1 or any(x != lists[0] for x in lists):
+                res['setup'] = 'machinery: the cosigner wallets do not list the same funding outputs for %s: %s' % (s['addr'], lists)
                 return res
         res['slots'] = [{'addr': s['addr'], 'path': s['path'], 'keys': s['keys']} for s in slots]
         res['secs'].append(round(time.time() - t0, 1))
@@ -125,16 +136,27 @@ def ceremony_job(job):
     tmpf = os.path.join(os.environ['BCL_DATA_DIR'], 'handoff_%s.tx' % tag)
     for cer in ceremonies:
         slot = slots[cer['slot'] % len(slots)]
-        txid, outn, value = slot['points'][cer['point'] % len(slot['points'])]
-        copies, waspushed, txs, evs = {}, {}, [], []
+        idx = []
+        for i in cer.get('points') or [cer.get('point', 0)]:
+            if i % len(slot['points']) not in idx:
+                idx.append(i % len(slot['points']))
+        if cer.get('chain') and slot.get('chainpt') is not None:          # spend the change output of an earlier ceremony
+            idx = [slot['chainpt']] + [i for i in idx[1:] if i != slot['chainpt']]
+        pts = [slot['points'][i] for i in idx]
+        value = sum(p[2] for p in pts)
+        change = cer.get('change', 0)
+        outs = [(dest, value - FEE - change)] + ([(slot['addr'], change)] if change else [])
+        funds = list(slot['points'])
+        copies, waspushed, txs, evs, pushed_t = {}, {}, [], [], None
         for a in cer['events']:
             op, w, v, form = a['op'], a['w'] - 1, a['v'] - 1, a['form']
             tgt = v if op == 'handoff' else w
             err = ''
             try:
                 if op == 'propose':
-                    copies[w] = ws[w].transaction_create([(dest, value - FEE)], [(txid, outn, slot['key_ids'][w], value)], fee=FEE,
-                                                         locktime=a.get('lt', 0), replace_by_fee=a.get('rbf', False))
+                    copies[w] = ws[w].transaction_create(outs, [(p[0], p[1], slot['key_ids'][w], p[2]) for p in pts], fee=FEE,
+                                                         locktime=a.get('lt', 0), replace_by_fee=a.get('rbf', False),
+                                                         random_output_order=False)
                 elif op == 'sign':
                     copies[w].sign()
                 elif op == 'send':
@@ -142,7 +164,7 @@ def ceremony_job(job):
                 elif op == 'verify':
                     pass
                 elif op == 'send_to':
-                    copies[w] = ws[w].send_to(dest, value - FEE, input_key_id=slot['key_ids'][w], fee=FEE, broadcast=True,
+                    copies[w] = ws[w].send_to(dest, pts[0][2] - FEE, input_key_id=slot['key_ids'][w], fee=FEE, broadcast=True,
                                               locktime=a.get('lt', 0), replace_by_fee=a.get('rbf', False))
                 elif op == 'handoff':
                     t = copies[w]
@@ -168,6 +190,8 @@ def ceremony_job(job):
                     ob['nsig'] = ns.pop() if len(ns) == 1 else -1
                     ob['verified'] = bool(t.verified)
                     ob['pushed'] = bool(t.pushed) and not waspushed.get(id(t), False)
+                    if ob['pushed'] and pushed_t is None:
+                        pushed_t = t
                     waspushed[id(t)] = bool(t.pushed)
                     ob['err'] = bool(t.error)
                     ob['shows'] = 'locktime %s sequence %s' % (t.locktime, ','.join('%x' % i.sequence for i in t.inputs))
@@ -185,7 +209,19 @@ def ceremony_job(job):
             evs.append(ob)
             if err:
                 break
-        res['ceremonies'].append({'slot': cer['slot'] % len(slots), 'amount': value, 'events': evs, 'txs': txs})
+        note = ''
+        if change and pushed_t is not None:
+            # the change output of the broadcast transaction is reported to every cosigner wallet and funds a later ceremony
+            try:
+                n_out = [k for k, o in enumerate(pushed_t.outputs) if o.address == slot['addr']][0]
+                rep = {'address': slot['addr'], 'script': '', 'confirmations': 1, 'output_n': n_out, 'txid': pushed_t.txid, 'value': change}
+                for w in ws:
+                    w.utxos_update(utxos=[dict(rep)], rescan_all=False)
+                slot['points'].append((pushed_t.txid, n_out, change))
+                slot['chainpt'] = len(slot['points']) - 1
+            except Exception as e:
+                note = 'reporting the change output raised %r' % (e,)
+        res['ceremonies'].append({'slot': cer['slot'] % len(slots), 'funds': funds, 'spends': pts, 'events': evs, 'txs': txs, 'note': note})
     for w in ws:
         _close(w)
     res['secs'].append(round(time.time() - t0, 1))
@@ -281,6 +317,21 @@ def gen_oversign(rng, m, holders):
         ev += [E('handoff', back, nxt, rng.choice(FORMS)), E('sign', nxt)]
         back = nxt
     ev.append(E('send', back))
+    return ev
+
+
+def gen_complete(rng, m, holders):
+    """m wallets of distinct cosigners sign in turn (object / file hand-offs), the last one broadcasts."""
+    byholder = {}
+    for w, h in enumerate(holders, 1):
+        byholder.setdefault(h, []).append(w)
+    order = [rng.choice(byholder[h]) for h in rng.sample(sorted(byholder), m)]
+    ev = [E('propose', order[0])]
+    for k, w in enumerate(order):
+        if k > 0:
+            ev.append(E('handoff', order[k - 1], w, rng.choice(['object', 'file'])))
+        ev.append(E('sign', w))
+    ev.append(E('send', order[-1]))
     return ev
 
 
@@ -470,7 +521,17 @@ def run(replay=None):
                 rng.shuffle(p)
                 wallets.append((tuple(p) if srt else tuple(shared), h - 1))
             cers = gen_ceremonies(rng, m, holders, budget if n <= 5 else 12)
-            cl = [{'slot': 1, 'point': i, 'events': ev} for i, ev in enumerate(cers)]
+            # funding: the ceremony address has outputs at indices 0, 0, 0, 1, 2, 255, 256, 65536 (two funding transactions with
+            # several outputs each); most spends have one input, a quarter two or three; twice per group a completed spend
+            # pays change back to the common address and that output (index 1 of a transaction the wallets made themselves)
+            # funds the next ceremony
+            cl = []
+            for i, ev in enumerate(cers):
+                pts = [i % NPOINTS] + (rng.sample(range(NPOINTS), rng.choice([1, 2])) if rng.random() < 0.25 else [])
+                cl.append({'slot': 1, 'points': pts, 'events': ev})
+            for pos in sorted(rng.sample(range(len(cl)), min(2, len(cl))), reverse=True):
+                cl[pos]['chain'] = True
+                cl.insert(pos, {'slot': 1, 'points': [rng.randrange(NPOINTS)], 'change': 20000000, 'events': gen_complete(rng, m, holders)})
             # send_to: Propose; Sign; Send in one call, on a slot of its own (the wallet selects the input itself)
             for w in rng.sample(range(1, W + 1), min(2, W)):
                 cl.append({'slot': 0, 'point': 0, 'events': [E('send_to', w), E('verify', w)]})
@@ -544,7 +605,8 @@ def run(replay=None):
                 recs.append({'kind': 'ceremony', 'm': m, 'wt': wt, 'net': NET, 'sorted': srt, 'listing': [x + 1 for x in wallets[0][0]],
                              'pubs': [list(p) for p in pubs], 'holder': [h + 1 for _, h in wallets],
                              'afs': [bool(st['afs']) for st in settings], 'height': [1, 0, 0, 0],    # bitcoinlib_test: block count 1
-                             'amount': list(got['amount'].to_bytes(8, 'little')),
+                             'funds': [{'txid': list(bytes.fromhex(f[0])[::-1]), 'vout': list(f[1].to_bytes(4, 'little')),
+                                        'amount': list(f[2].to_bytes(8, 'little'))} for f in got['funds']],
                              'events': [{k: e[k] for k in ('a', 'ok', 'nsig', 'verified', 'verify', 'pushed', 'err', 'rs', 'tx')} for e in got['events']],
                              'txs': [list(bytes.fromhex(x)) for x in got['txs']]})
                 meta.append(('c', job, got, dict(base, ceremony=cer), slot))
@@ -553,6 +615,7 @@ def run(replay=None):
 
     # ------------------------------------------------------------------ verdicts
     nag = ncer = nraw = nvalid = 0
+    fund = {'multi_input_spends': 0, 'chained_spends': 0, 'output_indices_spent': set()}
     for mt, v in zip(meta, verdicts):
         if mt[0] == 'a':
             _, (m, n, wt, srt, ri), obs = mt
@@ -572,6 +635,12 @@ def run(replay=None):
             seed, m, n, wt, srt, wallets, nslots, cl, tag, settings = job
             ncer += 1
             ck.traces += 1
+            fund['multi_input_spends'] += len(got['spends']) > 1
+            fund['chained_spends'] += any(p[2] == 20000000 for p in got['spends'])
+            for p in got['spends']:
+                fund['output_indices_spent'].add(p[1])
+            if got.get('note'):
+                raise common.MachineryError(got['note'])
             nraw += len(got['txs'])
             nvalid += sum(1 for c in v.get('cons', []) if c == 'valid')
             for e in got['events']:
@@ -586,8 +655,8 @@ def run(replay=None):
             if len(ck.samples) < 5:
                 ck.sample({'ceremony': '%d-of-%d %s' % (m, n, wt), 'events': describe(got['events'])[:400]})
     ck.notes.update({'agreement_observations': nag, 'ceremonies': ncer, 'raw_transactions_judged': nraw, 'network_valid': nvalid,
-                     'oracle_rounds': rounds, 'wallet_groups': len(cjobs), 'agreement_jobs': len(ajobs),
+                     'funding': dict(fund, output_indices_spent=sorted(fund['output_indices_spent'])), 'oracle_rounds': rounds, 'wallet_groups': len(cjobs), 'agreement_jobs': len(ajobs),
                      'seconds': {'wallet_drivers': round(tm['wallets'] - tm['t0'], 1), 'tlc_judge_and_oracle': round(tm['tlc'] - tm['wallets'], 1)}})
     if os.environ.get('VERIF_DEBUG'):
-        print('DEBUG', ck.notes['seconds'], 'records', len(recs), 'rounds', rounds)
+        print('DEBUG', ck.notes['seconds'], 'records', len(recs), 'rounds', rounds, ck.notes['funding'])
     return ck.finish()
